@@ -116,6 +116,13 @@ pub fn pp_parser(s: Span) -> IResult<Span, PreprocessorText> {
     preprocessor_text(s)
 }
 
+/// Verification hook: re-creates this thread's memo table with the given capacity
+/// (`None` = unbounded). Compiled only with `--cfg sv_parser_verif`.
+#[cfg(sv_parser_verif)]
+pub fn set_memo_capacity(n: Option<usize>) {
+    PACKRAT_STORAGE.with(|s| *s.borrow_mut() = nom_packrat::PackratStorage::new(n));
+}
+
 fn init() {
     nom_packrat::init!();
     clear_directive();
